@@ -21,7 +21,7 @@ def jobs(tier, seed):
         nm = 'generic' if e < 0 else f'2^{e}'
         for entry, reach in (('h_index_roundtrip', 'indexed'), ('h_multiindex_roundtrip', 'decoded'), ('h_wrap', 'wrapped')):
             J.append(dict(entry=entry, args=[e], label=f'{entry[2:]} ntheta={nm}', cls=entry[2:], reach=[reach], eager=True, feas_timeout=10, witness=True,
-                          cap_quick=120, cap_thorough=900))
+                          cap_quick=120, cap_thorough=300))
     J.append(dict(entry='h_pow2_flag', args=[], label='power-of-two flag', cls='pow2', reach=['flags-compared'], eager=False, witness=False, no_obligations_ok=True))
     shapes = [(5, 4, 2), (6, 6, 3), (7, 8, -1), (9, 12, 4), (4, 4, 0), (4, 4, 4), (3, 2, 1)] if q else \
         [(nr, nt, nC) for nr in (3, 4, 5, 7, 9, 11) for nt in (2, 4, 6, 8, 10, 12, 16) for nC in (0, 1, 2, nr // 2, nr, -1)]
